@@ -11,6 +11,10 @@ pub use grin_wallet_controller as controller;
 pub use grin_wallet_impls as impls;
 pub use grin_wallet_libwallet as libwallet;
 
+pub mod alloc;
+#[global_allocator]
+static GLOBAL: alloc::Counting = alloc::Counting;
+
 pub mod common;
 pub mod dwallet;
 pub mod explore;
